@@ -117,7 +117,8 @@ Print Assumptions C06_ws_insignificant.
       - amounts (every number layout): none; unit-less quantity [2 'eggs']; quantity with ANY unit name of the
         generated table in any letter case / inner spacing, with or without space before it, optionally followed by
         "of" / "of the" [2 Kg of the 'flour'] (reusing C12's recognition theorems); [n of (the)]; [n %] and
-        [n % of (the)]; [n *].  NOT covered: explicit quantities [{2 "sprigs"}] and the remainder words;
+        [n % of (the)]; [n *]; the remainder words [remaining / remainder / rest / left over] in any case, optionally
+        followed by "of" / "of the".  NOT covered: explicit quantities [{2 "sprigs"}];
       - steps with any number of inputs, nesting to any depth, arbitrary whitespace (line breaks included)
         around parentheses and commas, optional trailing comma;
       - left-to-right shorthand at statement level and inside parentheses;
@@ -157,13 +158,15 @@ Definition C06_example_recipe2 : precipe :=
                    (XRef (Some (AmUnit (NTInt 0 2) [32] (s "kg") (s "Kg") (Some ([32], PwOfThe (s "OF") [32; 32] (s "the"))), [32])) (nm "flour"))
                    [([], [32], XRef (Some (AmUnit (NTDec (s "1") (s "5")) [] (s "tea spoons") (s "Tea  Spoons") None, [])) (nm "salt"));
                     ([], [32], XRef (Some (AmOf (NTFrac 0 1 [] 0 2) [32] (PwOf (s "of")), [32])) (nm "sauce"));
-                    ([], [32], XRef (Some (AmPercent (NTInt 0 50) [] (Some ([32], PwOf (s "oF"))), [9])) (nm "stock"))]
+                    ([], [32], XRef (Some (AmPercent (NTInt 0 50) [] (Some ([32], PwOf (s "oF"))), [9])) (nm "stock"));
+                    ([], [32], XRef (Some (AmRem (RwWord 2 (s "REST")) (Some ([32], PwOfThe (s "of") [32] (s "the"))), [32])) (nm "oil"));
+                    ([], [32], XRef (Some (AmRem (RwLeftOver (s "Left") [32; 32] (s "over")) None, [])) (nm "wine"))]
                    None [])
            [] ([], None) ].
 
 Example C06_roundtrip_quoted_ex2 :
   recipe_ok C06_example_recipe2 = true /\
-  print_recipe C06_example_recipe2 = s "'mix'(2 Kg OF  the 'flour', 1.5Tea  Spoons'salt', 1/2 of 'sauce', 50% oF" ++ [9] ++ s "'stock')" /\
+  print_recipe C06_example_recipe2 = s "'mix'(2 Kg OF  the 'flour', 1.5Tea  Spoons'salt', 1/2 of 'sauce', 50% oF" ++ [9] ++ s "'stock', REST of the 'oil', Left  over'wine')" /\
   parse (print_recipe C06_example_recipe2) = POk (value_recipe C06_example_recipe2).
 Proof. vm_compute. repeat split; reflexivity. Qed.
 
